@@ -30,7 +30,6 @@ func runC12(c *Ctx) {
 		return
 	}
 	acts := c.actionMethods(ea)
-	offered, _, _ := c.offeredActions(ea)
 	byConst := map[string]*ssa.Function{}
 	for _, am := range acts {
 		byConst[am.Const] = am.Fn
@@ -40,101 +39,7 @@ func runC12(c *Ctx) {
 		hi = 9
 	}
 
-	// ---- amount-nonneg (with C01/amount-nonneg)
-	nAmt := 0
-	for _, am := range acts {
-		if !offered[am.Const] {
-			c.Notes = append(c.Notes, fmt.Sprintf("%s is guarded by %q which the engine never offers: amount obligations vacuous", am.Fn.Name(), am.Const))
-			continue
-		}
-		fn := am.Fn
-		s := newSumm(p, 0)
-		paths, cut := s.Function(fn)
-		if cut != "" {
-			c.undecided("amount-nonneg", fnKey(fn), p.FnPos(fn), "summary cut: "+cut)
-			continue
-		}
-		var pays []*PathSum
-		for _, ps := range paths {
-			for _, e := range ps.Events {
-				if e.Kind == "call" && e.Fn == mover {
-					pays = append(pays, ps)
-					break
-				}
-			}
-		}
-		if len(pays) == 0 {
-			continue
-		}
-		c.touch(fnKey(fn))
-		nAmt++
-		var viol []string
-		total := 0
-		for _, ps := range pays {
-			var amt *Val
-			for _, e := range ps.Events {
-				if e.Kind == "call" && e.Fn == mover {
-					amt = e.Args[1]
-				}
-			}
-			ints, bools := tableVars([]*PathSum{ps})
-			im := map[string]bool{}
-			for _, t := range ints {
-				im[t] = true
-			}
-			for t := range amt.asAff().T {
-				if !im[t] {
-					ints = append(ints, t)
-					im[t] = true
-				}
-			}
-			tStack, tInit, tWager, tCW := findTerm(ints, ".StackSize"), findTerm(ints, ".InitialStackSize"), findTerm(ints, ").Wager"), findTerm(ints, "Status.CurrentWager")
-			var en []string
-			for _, t := range ints {
-				if t == tStack && tInit != "" && tWager != "" {
-					continue
-				}
-				en = append(en, t)
-			}
-			h := hi
-			if len(en) > 6 {
-				h = 4
-			}
-			n := enumGridR(en, func(name string) (int64, int64) {
-				if strings.HasPrefix(name, "param:") {
-					return -3, h
-				}
-				return 0, h
-			}, bools, func(a Asg) bool {
-				if tStack != "" && tInit != "" && tWager != "" {
-					a.I[tStack] = a.I[tInit] - a.I[tWager]
-					if a.I[tStack] < 0 {
-						return false
-					}
-				}
-				if tWager != "" && tCW != "" && a.I[tWager] > a.I[tCW] {
-					return false
-				}
-				return true
-			}, func(a Asg) bool {
-				holds, ok := evalPath(ps, a)
-				if !ok || !holds {
-					return true
-				}
-				v, ok := evalAff(amt.asAff(), a)
-				if ok && v < 0 && len(viol) < 3 {
-					viol = append(viol, fmt.Sprintf("amount %s = %d for {%s} on path [%s]", amt, v, a.String(), ps.CondString()))
-				}
-				return len(viol) < 3
-			})
-			total += n
-		}
-		c.Sites += total
-		c.check(len(viol) == 0, "amount-nonneg", fnKey(fn), p.FnPos(fn),
-			fmt.Sprintf("the amount handed to the chip mover is >= 0 on all %d paying paths for every argument (%d states)", len(pays), total),
-			"a caller-supplied amount can make the chip mover pay a negative amount (wager, stack and round pot go out of bounds)", viol...)
-	}
-	c.floor("amount-nonneg", "paying actions", nAmt, 4)
+	checkAmountNonNeg(c, ea)
 
 	// ---- raise-table
 	if fn := byConst["raise"]; fn == nil {
@@ -361,4 +266,117 @@ func runRaiseTable(c *Ctx, fn, mover *ssa.Function, byConst map[string]*ssa.Func
 	c.floor("raise-table", "rows", len(paths), 6)
 	c.check(len(viol) == 0, "raise-table", fnKey(fn)+"#reference", p.FnPos(fn),
 		fmt.Sprintf("%d rows agree with the minimum-raise rule on %d states", len(paths), n), "Raise does not follow the minimum-raise rule", viol...)
+}
+
+// checkAmountNonNeg: for every offered action, the amount handed to the chip mover is
+// non-negative for every caller-supplied argument (C12/amount-nonneg, cross-listed as
+// C01/amount-nonneg).
+func checkAmountNonNeg(c *Ctx, ea *engineAnchors) {
+	p := c.P
+	mover := c.chipMover(ea)
+	if mover == nil {
+		c.undecided("amount-nonneg", "chip-mover", "-", "cannot resolve the chip-moving routine")
+		return
+	}
+	acts := c.actionMethods(ea)
+	offered, _, _ := c.offeredActions(ea)
+	hi := int64(6)
+	if c.Tier == "thorough" {
+		hi = 9
+	}
+	nAmt := 0
+	for _, am := range acts {
+		if !offered[am.Const] {
+			c.Notes = append(c.Notes, fmt.Sprintf("%s is guarded by %q which the engine never offers: amount obligations vacuous", am.Fn.Name(), am.Const))
+			continue
+		}
+		fn := am.Fn
+		s := newSumm(p, 0)
+		paths, cut := s.Function(fn)
+		if cut != "" {
+			c.undecided("amount-nonneg", fnKey(fn), p.FnPos(fn), "summary cut: "+cut)
+			continue
+		}
+		var pays []*PathSum
+		for _, ps := range paths {
+			for _, e := range ps.Events {
+				if e.Kind == "call" && e.Fn == mover {
+					pays = append(pays, ps)
+					break
+				}
+			}
+		}
+		if len(pays) == 0 {
+			continue
+		}
+		c.touch(fnKey(fn))
+		nAmt++
+		var viol []string
+		total := 0
+		for _, ps := range pays {
+			var amt *Val
+			for _, e := range ps.Events {
+				if e.Kind == "call" && e.Fn == mover {
+					amt = e.Args[1]
+				}
+			}
+			ints, bools := tableVars([]*PathSum{ps})
+			im := map[string]bool{}
+			for _, t := range ints {
+				im[t] = true
+			}
+			for t := range amt.asAff().T {
+				if !im[t] {
+					ints = append(ints, t)
+					im[t] = true
+				}
+			}
+			tStack, tInit, tWager, tCW := findTerm(ints, ".StackSize"), findTerm(ints, ".InitialStackSize"), findTerm(ints, ").Wager"), findTerm(ints, "Status.CurrentWager")
+			var en []string
+			for _, t := range ints {
+				if t == tStack && tInit != "" && tWager != "" {
+					continue
+				}
+				en = append(en, t)
+			}
+			h := hi
+			if len(en) > 6 {
+				h = 4
+			}
+			n := enumGridR(en, func(name string) (int64, int64) {
+				if strings.HasPrefix(name, "param:") {
+					return -3, h
+				}
+				return 0, h
+			}, bools, func(a Asg) bool {
+				if tStack != "" && tInit != "" && tWager != "" {
+					a.I[tStack] = a.I[tInit] - a.I[tWager]
+					if a.I[tStack] < 0 {
+						return false
+					}
+				}
+				if tWager != "" && tCW != "" && a.I[tWager] > a.I[tCW] {
+					return false
+				}
+				return true
+			}, func(a Asg) bool {
+				holds, ok := evalPath(ps, a)
+				if !ok || !holds {
+					return true
+				}
+				v, ok := evalAff(amt.asAff(), a)
+				if ok && v < 0 && len(viol) < 3 {
+					viol = append(viol, fmt.Sprintf("amount %s = %d for {%s} on path [%s]", amt, v, a.String(), ps.CondString()))
+				}
+				return len(viol) < 3
+			})
+			total += n
+		}
+		c.Sites += total
+		c.check(len(viol) == 0, "amount-nonneg", fnKey(fn), p.FnPos(fn),
+			fmt.Sprintf("the amount handed to the chip mover is >= 0 on all %d paying paths for every argument (%d states)", len(pays), total),
+			"a caller-supplied amount can make the chip mover pay a negative amount (wager, stack and round pot go out of bounds)", viol...)
+	}
+	c.floor("amount-nonneg", "paying actions", nAmt, 4)
+
 }
